@@ -1,4 +1,4 @@
-import Proofs.LedgerReach
+import Proofs.Reachable
 import Properties.C03
 /-!
 # C10 — sealing rules: no self-sealed transfers, the genesis wallet never spends, no empty transactions
